@@ -48,8 +48,41 @@ def sources(tier, seed, ctx):
             blocks['blkA'] = {'i': [], 'g': members, 'o': members[:1]}
             if r.random() < 0.4:
                 blocks['blkB'] = {'i': [], 'g': [labels[-1]], 'o': []}
-        init = H.rec_from_net(net, outs, blocks=blocks)
+        HELPERS = ('LT', 'LEQ', 'GT', 'GEQ', 'ALWAYS_TRUE', 'ALWAYS_FALSE')
+        if n % 7 == 3 and len(gs) >= 2:
+            # labels are the user's: a gate may be called what the conversion would like to call a helper of ANOTHER gate
+            # (with and without a suffix), or carry the prefixes the library generates elsewhere
+            k0 = r.randrange(len(gs))
+            style = r.randrange(3)
+            for k in range(len(gs)):
+                if k == k0:
+                    continue
+                if style == 0 and gs[k0][0] in HELPERS:
+                    labels[ni + k] = f'new_gate_{gs[k0][0]}_for_{labels[ni + k0]}'
+                    break
+                if style == 1:
+                    labels[ni + k] = r.choice(['not_', 'new_', 'tmp_', 'gate_', 'new_gate_NOT_for_']) + labels[ni + k0]
+                    break
+                if style == 2:
+                    labels[ni + k] = r.choice(['10', '2', 'INPUT', 'vdd', 'x0@g', 'NOT'])
+                    break
+            if blocks:
+                old = gen.default_labels(ni, len(gs))
+                ren = dict(zip(old, labels))
+                blocks = {b: {f: [ren[x] for x in v[f]] for f in ('i', 'g', 'o')} for b, v in blocks.items()}
+        init = H.rec_from_net(net, outs, labels=labels, blocks=blocks)
         acts = [{'a': 'into_bench'}]
+        if n % 7 == 5 and gs and gs[-1][0] in HELPERS and (ni + len(gs)) in outs:
+            # converted; the last gate (an output, no users) is dropped and built again under its old label with a type
+            # that needs a helper; converted again - the first conversion's helper is still in the circuit
+            lab = labels[-1]
+            newouts = [labels[o - 1] for o in outs if o != ni + len(gs)]
+            t2 = r.choice(['LT', 'GEQ', 'ALWAYS_TRUE'])
+            acts += [{'a': 'set_outputs', 'q': newouts}, {'a': 'remove_gate', 'l': lab},
+                     {'a': 'add_gate', 'l': lab, 't': t2, 'ops': [] if t2 == 'ALWAYS_TRUE' else [labels[0], labels[ni - 1]]},
+                     {'a': 'mark_as_output', 'l': lab}, {'a': 'into_bench'}]
+            srcs.append({'k': 'hist', 'init': init, 'acts': acts, 'from': 'universe-rebuilt'})
+            continue
         if r.random() < 0.2:
             acts.append({'a': 'copy'})
             acts.append({'a': 'into_bench'})
